@@ -191,17 +191,28 @@ def main():
     nbad = 0
     nruns = 0
     reuse = 0
+    inclass = dict(in_fragment_const=0, in_fragment_multi=0, in_fragment_named=0)
+    inclass_bad = 0
     progs = [gen_program(rng, cls) for _ in range(N)]
     allruns = all_runs_many(progs, False)
     for (inputs, defs, rets), runs in zip(progs, allruns):
         runs, bad = check(inputs, defs, rets, runs)
         nruns += len(runs)
+        # membership in the Lean classes as the driver reports it (the decidable predicates of the theorems)
+        flags = [k for k in inclass if any(rep.get(k) for _, rep in runs)]
+        for k in flags:
+            inclass[k] += 1
+        if flags and any(("error" in rep) or not rep.get("valid") for _, rep in runs):
+            inclass_bad += 1
+            print("IN-CLASS FAILURE", json.dumps(dict(inputs=inputs, defs=defs, rets=rets)))
         if any(len(set(cs)) < len(cs) for cs, _ in runs):
             reuse += 1
         if bad:
             nbad += 1
-            print("BAD", json.dumps(dict(inputs=inputs, defs=defs, rets=rets)), bad[:3])
-    print(f"class {cls}: {N} programs, {nruns} runs, {reuse} programs re-use a freed ancilla, {nbad} bad")
+            if os.environ.get("VERBOSE"):
+                print("BAD", json.dumps(dict(inputs=inputs, defs=defs, rets=rets)), bad[:3])
+    print(f"class {cls}: {N} programs, {nruns} runs, {reuse} programs re-use a freed ancilla, {nbad} bad; "
+          f"in the Lean classes (driver flags): {inclass}, of which failing: {inclass_bad}")
 
 
 if __name__ == "__main__":
